@@ -115,7 +115,8 @@ def run_replay(path, timeout=120):
         r = subprocess.run([sys.executable, path], capture_output=True, text=True, timeout=timeout)
     except subprocess.TimeoutExpired:
         return False, 'timeout'
-    return r.returncode == 1, (r.stdout + r.stderr)[-2000:]
+    # a crash of the script is not a reproduction: the script must say so itself
+    return (r.returncode == 1 and 'VIOLATION of' in r.stdout), (r.stdout + r.stderr)[-2000:]
 
 
 # ---------------------------------------------------------------- worker pool
@@ -145,6 +146,8 @@ def pmap(fn, tasks, workers=None, mem_heavy=False):
     ctx = mp.get_context('fork')
     with ctx.Pool(processes=workers, maxtasksperchild=1) as pool:
         for t, (st, r, s) in zip(tasks, pool.imap(_run_task, [(fn, t) for t in tasks], chunksize=1)):
+            if os.environ.get('VERIF_DEBUG') and s > float(os.environ['VERIF_DEBUG']):
+                print('   [slow task %.0fs] %s' % (s, str(t)[:200]), flush=True)
             yield t, st, r, s
 
 
